@@ -4,6 +4,7 @@ import (
 	"crypto/aes"
 	"crypto/cipher"
 	"crypto/rand"
+	"errors"
 	"io"
 	"os"
 
@@ -123,6 +124,9 @@ func (handler *LocalEncryptionHandler) decryptData(dek []byte, encryptedData []b
 
 	// get nonce
 	nonceSize := gcm.NonceSize()
+	if len(encryptedData) < nonceSize {
+		return nil, errors.New("encrypted data is too short to contain a nonce")
+	}
 	nonce, ciphertext := encryptedData[:nonceSize], encryptedData[nonceSize:]
 
 	// decrypt the data
@@ -197,8 +201,14 @@ func (handler *LocalEncryptionHandler) Seal(data []byte) ([]byte, error) {
 
 func (handler *LocalEncryptionHandler) Read(encryptedData []byte) ([]byte, error) {
 	// Decompose wrapped key and cypher text
+	if len(encryptedData) == 0 {
+		return nil, errors.New("encrypted data is empty")
+	}
 	keySize := int(encryptedData[0])
 	keyEndPos := keySize + 1
+	if keyEndPos > len(encryptedData) {
+		return nil, errors.New("encrypted data is too short to contain the wrapped key")
+	}
 	wrappedDEK := encryptedData[1:keyEndPos]
 
 	ciphertext := encryptedData[keyEndPos:]
